@@ -6,8 +6,10 @@ package backend
 // Contracts for /verif (tool: gov); comments only.
 //@ func lemmaC17_frequency
 //@   props C17
+//@   inlines (*backend.Frequency).UnmarshalJSON
 //@ func lemmaC17_percentage
 //@   props C17
+//@   inlines (*backend.Percentage).UnmarshalJSON
 
 // ----- key envelopes (C17 / C16): without a KEK label (or without a KEK) the key is carried in clear; with one
 // the envelope carries that label and whatever RFC 3394 wrapping (third-party, assumed total) produced
